@@ -987,7 +987,13 @@ class BaseImage(metaclass=ImageMeta):
 
         if not method:
             if cls._render_methods:
-                cls._render_method = cls._default_render_method
+                try:
+                    del cls._render_method
+                except AttributeError:
+                    pass
+                # No parent style class to inherit from
+                if cls._render_method is None:
+                    cls._render_method = cls._default_render_method
         else:
             cls._render_method = method
 
